@@ -28,14 +28,13 @@ structure PrepOK (ext : Nat → Nat) (dvars : List MVar) (mb : Mgr) (p : B2MPrep
   btv : p.bitToVar = b2mBitToVar dvars
   tbl : p.tbl = m2.tbl
   inv : ReorderInv ext m2
-  off : m2.lastLen = none
   zone : ZoneOK dvars m2.tbl
   /-- held references keep their meaning as functions of the variable names -/
   held : ∀ u : Nat, 0 < ext u → m2.tbl.Mem (u : Int) ∧
     ∀ a, denN m2.tbl (u : Int) a = denN mb.tbl (u : Int) a
   names : ∀ v : String, m2.tbl.vars.contains v = mb.tbl.vars.contains v
 
-theorem b2mPrepare_spec (ext : Nat → Nat) (mb : Mgr) (h : ReorderInv ext mb) (hoff : mb.lastLen = none)
+theorem b2mPrepare_spec (ext : Nat → Nat) (mb : Mgr) (h : ReorderInv ext mb)
     (dvars : List MVar) (hd : DvarsOK mb.tbl dvars) (p : B2MPrep) (m2 : Mgr)
     (hr : b2mPrepare dvars mb = (.ok p, m2)) : PrepOK ext dvars mb p m2 := by
   unfold b2mPrepare at hr
@@ -151,7 +150,7 @@ theorem b2mPrepare_spec (ext : Nat → Nat) (mb : Mgr) (h : ReorderInv ext mb) (
               exact hlv
             have hnames : ∀ v : String, m2'.tbl.vars.contains v = mb.tbl.vars.contains v := by
               intro v; rw [hR.names v, hsub.vars]
-            refine ⟨rfl, rfl, hI2, by rw [hR.lastLen, hsub.lastLen]; exact hoff, ?_, ?_, hnames⟩
+            refine ⟨rfl, rfl, hI2, ?_, ?_, hnames⟩
             · refine ⟨hI2.order, ?_, ?_, ?_, ?_, ?_, ?_, ?_⟩
               · intro ℓ hℓ
                 rw [hnvo] at hℓ
